@@ -176,16 +176,16 @@ LoadRules(st0, fs, dirs, force, enforceNew) == LoadRulesOv(st0, fs, dirs, force,
 (* reference - is decided by the default rule: dd is the set of roles the  *)
 (* default rule allows, {} when no usable default rule is configured.      *)
 (***************************************************************************)
-RECURSIVE AllowedD(_, _, _, _)
-AllowedD(rules, n, fuel, dd) ==
+RECURSIVE AllowedWith(_, _, _, _)
+AllowedWith(rules, n, fuel, dd) ==
   IF fuel = 0 THEN {}
   ELSE IF n \notin Names \/ rules[n].k = "none" THEN dd
   ELSE IF rules[n].k = "roles" THEN rules[n].r
   ELSE IF rules[n].k = "any" THEN {"*"}          \* the always-allow rule: every role (written "*")
-  ELSE AllowedD(rules, rules[n].n, fuel - 1, dd)
-DecisionsD(rules, dd) == [n \in Names |-> AllowedD(rules, n, 4, dd)]
-Allowed(rules, n, fuel) == AllowedD(rules, n, fuel, {})
-Decisions(rules) == DecisionsD(rules, {})
+  ELSE AllowedWith(rules, rules[n].n, fuel - 1, dd)
+DecisionsWith(rules, dd) == [n \in Names |-> AllowedWith(rules, n, 4, dd)]
+Allowed(rules, n, fuel) == AllowedWith(rules, n, fuel, {})
+Decisions(rules) == DecisionsWith(rules, {})
 
 (***************************************************************************)
 (* C09 / C11 - the declarative reading: the effective definition of a name *)
